@@ -242,7 +242,7 @@ def oracle(doc, genes):
 def collision_db(r, force_triple=False):
     """generated database with duplicate variant sets, name collisions, labels, fusions with own
     core variants, custom deletions"""
-    y = gen_gene.gen_gene(r, pseudogene=r.random() < 0.8, fusions=r.randint(0, 3), custom=r.random() < 0.4, deletion=r.random() < 0.7,
+    y = gen_gene.gen_gene(r, ascending38=r.random() < 0.3, pseudogene=r.random() < 0.8, fusions=r.randint(0, 3), custom=r.random() < 0.4, deletion=r.random() < 0.7,
                           cigar_indels=r.random() < 0.3, offsets=(10000, 20000))
     doc = yaml.safe_load(y)
     name = doc["name"]
